@@ -81,6 +81,15 @@ def gen_dgm(rng, allow_inf=True, allow_empty=False, max_n=6):
 
 def gen_case(rng, tier):
     K = rng.randint(2, 3)
+    # arrays the clients keep and hand to several calls (as users do), some of them single precision
+    pool = []
+    for _ in range(rng.randint(2, 4)):
+        pts = gen_dgm(rng)
+        dt = rng.choice(("f64", "f64", "f32", "i64"))
+        if dt == "f32":      # values exactly representable in single precision
+            pts = [[round(x * 64) / 64.0 if math.isfinite(x) else x for x in p] for p in pts]
+            pts = [[p[0], max(p)] for p in pts]
+        pool.append({"pts": pts, "dtype": dt})
     ops = []
     for _ in range(rng.randint(2, 8)):
         k = rng.randrange(K)
@@ -92,6 +101,10 @@ def gen_case(rng, tier):
             op["dgms"] = [gen_dgm(rng, allow_empty=rng.random() < 0.3) for _ in range(nd)]
             op["as_list"] = nd > 1 or rng.random() < 0.5
             op["int_arrays"] = rng.random() < 0.3
+            if rng.random() < 0.45:
+                op["pool_ids"] = [rng.randrange(len(pool)) for _ in range(nd)]
+                op["dgms"] = [pool[i]["pts"] for i in op["pool_ids"]]
+                op["int_arrays"] = False
             o = {}
             if rng.random() < 0.3:
                 o["lifetime"] = True
@@ -126,7 +139,7 @@ def gen_case(rng, tier):
             op["bars"] = [[0.0, 3.0], [1.0, 4.0]] if rng.random() < 0.5 else [[0.0, 2.0]]
             op["approx"] = rng.random() < 0.5
         ops.append(op)
-    return {"inputs": {"clients": K}, "ops": ops, "config": {}}
+    return {"inputs": {"clients": K, "pool": pool}, "ops": ops, "config": {}}
 
 
 # ---------------------------------------------------------------- snapshots
@@ -344,6 +357,20 @@ def run_case(case, sched):
         fig, ax = plt.subplots()
         figs.append((fig, ax))
     own = {id(ax): k for k, (fig, ax) in enumerate(figs)}
+    pool_arrays = []
+    for pe in case["inputs"].get("pool") or []:
+        dgmgen.check_diagram_json(pe.get("pts"))
+        a_ = np.array(pe["pts"], dtype=float).reshape(-1, 2)
+        dt = pe.get("dtype", "f64")
+        if dt == "f32":
+            a_ = a_.astype(np.float32)
+        elif dt == "i64":
+            if np.isfinite(a_).all() and np.all(a_ == np.round(a_)):
+                a_ = a_.astype(np.int64)
+        elif dt != "f64":
+            raise InvalidCase("pool dtype")
+        pool_arrays.append(a_)
+    reused = 0
     strays = []
     checked = 0
     not_current = 0
@@ -391,6 +418,14 @@ def run_case(case, sched):
                 if "labels" in opts and isinstance(opts["labels"], list) and len(opts["labels"]) != len(dg):
                     raise InvalidCase("labels")
                 arrs = [np.array(d, dtype=float).reshape(-1, 2) for d in dg]
+                if op.get("pool_ids") is not None:
+                    ids_ = op["pool_ids"]
+                    pl_ = case["inputs"].get("pool") or []
+                    if len(ids_) != len(dg) or any(not isinstance(i, int) or not 0 <= i < len(pool_arrays) for i in ids_) \
+                            or any(pl_[i]["pts"] != d for i, d in zip(ids_, dg)):
+                        raise InvalidCase("pool reference")
+                    arrs = [pool_arrays[i] for i in ids_]        # the caller's own, reused arrays
+                    reused += 1
                 if op.get("int_arrays"):
                     arrs = [a.astype(np.int64) if np.isfinite(a).all() and np.all(a == np.round(a)) else a for a in arrs]
                 arg = arrs if (op.get("as_list", True) or len(arrs) > 1) else arrs[0]
@@ -464,7 +499,8 @@ def run_case(case, sched):
         "evals": checked, "ops": len(case["ops"]),
         "key": hashlib.sha1(json.dumps(case["ops"], sort_keys=True).encode()).hexdigest()[:16],
         "nontrivial": K >= 2 and not_current >= 1,
-        "probes": {"checked_calls": checked, "calls_on_non_current_axes": not_current},
+        "probes": {"checked_calls": checked, "calls_on_non_current_axes": not_current,
+                   "calls_reusing_the_callers_arrays": reused},
         "faults": {"env:" + k_: v for k_, v in env_fired.items()},
     }
 
@@ -501,6 +537,10 @@ def shrink_candidates(case):
         if o.get("labels"):
             c = copy.deepcopy(case)
             del c["ops"][i]["labels"]
+            yield c
+        if o.get("pool_ids") is not None:
+            c = copy.deepcopy(case)
+            del c["ops"][i]["pool_ids"]
             yield c
         for key in ("a", "b"):
             if key in o:
